@@ -36,6 +36,9 @@ def load_known():
         return json.load(f)
 
 
+OUT = [os.path.join(ROOT, "evidence")]
+
+
 def stage1(pid, repo, tier, plan):
     from .contracts import Registry
     from . import solve, run
@@ -70,7 +73,7 @@ def run_concrete(pid, repo, tier, seed, cexfile=None, timeout=3000):
     script = os.path.join(ROOT, "harness", "concrete.py")
     if not os.path.exists(script):
         return {"results": [], "error": None, "skipped": True}
-    out = os.path.join(ROOT, "evidence", "work", f"{pid}.concrete.json")
+    out = os.path.join(OUT[0], "work", f"{pid}.concrete.json")
     os.makedirs(os.path.dirname(out), exist_ok=True)
     if os.path.exists(out):
         os.unlink(out)
@@ -128,9 +131,16 @@ def main(argv=None):
     ap.add_argument("--tier", default=os.environ.get("VERIF_TIER", "quick"))
     ap.add_argument("--repo", default=os.environ.get("PYVC_REPO", "/repo"))
     ap.add_argument("--replay", default=None)
+    ap.add_argument("--out", default=None,
+                    help="directory for evidence / replay files (default "
+                         "evidence/; use another one when checking a scratch "
+                         "copy of the repository)")
     ap.add_argument("--no-concrete", action="store_true")
     ap.add_argument("--update-baseline", action="store_true")
     a = ap.parse_args(argv)
+    if a.out:
+        OUT[0] = os.path.abspath(a.out)
+    os.makedirs(os.path.join(OUT[0], "work"), exist_ok=True)
     seed = int(os.environ.get("VERIF_SEED", "0") or 0)
     t_start = time.time()
     pid = a.pid
@@ -214,11 +224,11 @@ def main(argv=None):
     verified_funcs = [f for f in funcs if f.get("status") == "under contract"]
 
     # ---- concrete stage ----------------------------------------------------
-    replay_dir = os.path.join(ROOT, "evidence", "replay")
+    replay_dir = os.path.join(OUT[0], "replay")
     os.makedirs(replay_dir, exist_ok=True)
     cexfile = None
     if refuted:
-        cexfile = os.path.join(ROOT, "evidence", "work", f"{pid}.cex.json")
+        cexfile = os.path.join(OUT[0], "work", f"{pid}.cex.json")
         os.makedirs(os.path.dirname(cexfile), exist_ok=True)
         with open(cexfile, "w") as f:
             json.dump([{"obligation": o.name, "function": o.func,
@@ -360,7 +370,7 @@ def main(argv=None):
         "wall_s": round(time.time() - t_start, 2),
         "violations": violations,
     }
-    evp = os.path.join(ROOT, "evidence", f"{pid}.json")
+    evp = os.path.join(OUT[0], f"{pid}.json")
     with open(evp, "w") as f:
         json.dump(ev, f, indent=1, default=str)
 
